@@ -71,54 +71,62 @@ void run_string_view(vf::Ctx &c) {
   const std::string_view ss(ns.data(), ns.size()), st(nt.data(), nt.size());
   std::string out;  // results, for the outcome / state counters
   uint64_t n = 0;
-  auto same = [&](const std::string &got, const std::string &want, const char *sig, const std::string &what) {
+  // SAME(got, want, sig, what): `what` (a std::string expression) is only evaluated when the results differ
+  vf::H128 outh;
+  auto same_impl = [&](const std::string &got, const std::string &want) {
     ++n;
-    c.check(got == want, sig, what + ": nostd gives " + got + ", std gives " + want);
-    out += got + ";";
+    outh.add_str(got);
+    if (out.size() < 200) out += got + ";";
+    return got == want;
   };
+#define SAME(GOT, WANT, SIG, WHAT)                                                                   \
+  do {                                                                                               \
+    std::string got_ = (GOT), want_ = (WANT);                                                        \
+    if (!same_impl(got_, want_)) c.fail((SIG), std::string(WHAT) + ": nostd gives " + got_ + ", std gives " + want_); \
+  } while (0)
   auto I = [](long long v) { return vf::sfmt("%lld", v); };
   switch (group) {
     case 0: {  // construction and element access
       c.stage("string_view:access");
       nostd::string_view nd;
       std::string_view sd;
-      same(I(nd.size()) + I(nd.empty()) + I(nd.data() == nullptr) + I(nd.length()), I(sd.size()) + I(sd.empty()) + I(sd.data() == nullptr) + I(sd.length()), "C20:string_view:ctor", "default constructor");
+      SAME(I(nd.size()) + I(nd.empty()) + I(nd.data() == nullptr) + I(nd.length()), I(sd.size()) + I(sd.empty()) + I(sd.data() == nullptr) + I(sd.length()), "C20:string_view:ctor", "default constructor");
       CStr cs(s);
       nostd::string_view nc(cs.p);
       std::string_view sc(cs.p);
-      same(I(nc.size()) + I(nc.data() == cs.p), I(sc.size()) + I(sc.data() == cs.p), "C20:string_view:ctor", "string_view(const char*) of " + q(s));
+      SAME(I(nc.size()) + I(nc.data() == cs.p), I(sc.size()) + I(sc.data() == cs.p), "C20:string_view:ctor", "string_view(const char*) of " + q(s));
       std::string str(s);
       nostd::string_view nstr(str);
       std::string_view sstr(str);
-      same(I(nstr.size()) + I(nstr.data() == str.data()), I(sstr.size()) + I(sstr.data() == str.data()), "C20:string_view:ctor", "string_view(std::string) of " + q(s));
-      same(I(ns.size()) + I(ns.length()) + I(ns.empty()) + I(ns.end() - ns.begin()) + I(ns.begin() == ns.data()),
+      SAME(I(nstr.size()) + I(nstr.data() == str.data()), I(sstr.size()) + I(sstr.data() == str.data()), "C20:string_view:ctor", "string_view(std::string) of " + q(s));
+      SAME(I(ns.size()) + I(ns.length()) + I(ns.empty()) + I(ns.end() - ns.begin()) + I(ns.begin() == ns.data()),
            I(ss.size()) + I(ss.length()) + I(ss.empty()) + I(ss.end() - ss.begin()) + I(ss.begin() == ss.data()), "C20:string_view:access", "size/length/empty/begin/end of " + q(s));
-      same(q(static_cast<std::string>(ns)), q(std::string(ss)), "C20:string_view:access", "conversion to std::string of " + q(s));
+      SAME(q(static_cast<std::string>(ns)), q(std::string(ss)), "C20:string_view:access", "conversion to std::string of " + q(s));
       nostd::string_view nm = ns;  // operator[] is non-const
       std::string a, b;
       for (size_t i = 0; i < s.size(); ++i) { a += nm[i]; b += ss[i]; }
-      same(q(a), q(b), "C20:string_view:access", "operator[] over " + q(s));
+      SAME(q(a), q(b), "C20:string_view:access", "operator[] over " + q(s));
       a.clear(); b.clear();
       for (char ch : ns) a += ch;
       for (char ch : ss) b += ch;
-      same(q(a), q(b), "C20:string_view:access", "iteration over " + q(s));
+      SAME(q(a), q(b), "C20:string_view:access", "iteration over " + q(s));
       nostd::string_view ncopy(ns);
       nm = nt;
-      same(I(ncopy.data() == ns.data()) + I(ncopy.size()) + I(nm.data() == nt.data()), "1" + I(ss.size()) + "1", "C20:string_view:ctor", "copy / assignment of " + q(s));
+      SAME(I(ncopy.data() == ns.data()) + I(ncopy.size()) + I(nm.data() == nt.data()), "1" + I(ss.size()) + "1", "C20:string_view:ctor", "copy / assignment of " + q(s));
       break;
     }
     case 1: {  // compare(v), ordering and equality with every operand kind
       c.stage("string_view:compare");
       std::string w = q(s) + " vs " + q(t);
-      same(I(sgn(ns.compare(nt))), I(sgn(ss.compare(st))), "C20:string_view:compare", "compare(string_view) " + w);
-      same(I(sgn(ns.compare(ct.p))), I(sgn(ss.compare(ct.p))), "C20:string_view:compare-cstr", "compare(const char*) " + w);
-      same(I(ns < nt) + I(ns > nt), I(ss < st) + I(ss > st), "C20:string_view:order", "operator< / operator> " + w);
-      same(I(ns < stt) + I(ns > stt) + I(ns < ct.p) + I(ns > ct.p), I(ss < stt) + I(ss > stt) + I(ss < ct.p) + I(ss > ct.p), "C20:string_view:order-converted",
+      SAME(I(sgn(ns.compare(nt))), I(sgn(ss.compare(st))), "C20:string_view:compare", "compare(string_view) " + w);
+      SAME(I(sgn(ns.compare(ct.p))), I(sgn(ss.compare(ct.p))), "C20:string_view:compare-cstr", "compare(const char*) " + w);
+      SAME(I(ns < nt) + I(ns > nt), I(ss < st) + I(ss > st), "C20:string_view:order", "operator< / operator> " + w);
+      SAME(I(ns < stt) + I(ns > stt) + I(ns < ct.p) + I(ns > ct.p), I(ss < stt) + I(ss > stt) + I(ss < ct.p) + I(ss > ct.p), "C20:string_view:order-converted",
            "operator< / operator> with std::string and const char* operands " + w);
-      same(I(ns == nt) + I(ns != nt), I(ss == st) + I(ss != st), "C20:string_view:eq", "operator== / != (string_view, string_view) " + w);
-      same(I(ns == stt) + I(ns != stt) + I(stt == ns) + I(stt != ns), I(ss == stt) + I(ss != stt) + I(stt == ss) + I(stt != ss), "C20:string_view:eq-string",
+      SAME(I(ns == nt) + I(ns != nt), I(ss == st) + I(ss != st), "C20:string_view:eq", "operator== / != (string_view, string_view) " + w);
+      SAME(I(ns == stt) + I(ns != stt) + I(stt == ns) + I(stt != ns), I(ss == stt) + I(ss != stt) + I(stt == ss) + I(stt != ss), "C20:string_view:eq-string",
            "operator== / != with a std::string operand " + w);
-      same(I(ns == ct.p) + I(ns != ct.p) + I(ct.p == ns) + I(ct.p != ns), I(ss == ct.p) + I(ss != ct.p) + I(ct.p == ss) + I(ct.p != ss), "C20:string_view:eq-cstr",
+      SAME(I(ns == ct.p) + I(ns != ct.p) + I(ct.p == ns) + I(ct.p != ns), I(ss == ct.p) + I(ss != ct.p) + I(ct.p == ss) + I(ct.p != ss), "C20:string_view:eq-cstr",
            "operator== / != with a const char* operand " + w);
       break;
     }
@@ -127,11 +135,11 @@ void run_string_view(vf::Ctx &c) {
       for (size_t p1 : positions(s.size(), th))
         for (size_t c1 : positions(s.size(), th)) {
           std::string w = vf::sfmt("(%s,%s) of ", pos_str(p1).c_str(), pos_str(c1).c_str()) + q(s) + " with " + q(t);
-          same(guarded([&] { return I(sgn(ns.compare(p1, c1, nt))); }), guarded([&] { return I(sgn(ss.compare(p1, c1, st))); }), "C20:string_view:compare-pos", "compare(pos1,count1,v) " + w);
-          same(guarded([&] { return I(sgn(ns.compare(p1, c1, ct.p))); }), guarded([&] { return I(sgn(ss.compare(p1, c1, ct.p))); }), "C20:string_view:compare-pos-cstr",
+          SAME(guarded([&] { return I(sgn(ns.compare(p1, c1, nt))); }), guarded([&] { return I(sgn(ss.compare(p1, c1, st))); }), "C20:string_view:compare-pos", "compare(pos1,count1,v) " + w);
+          SAME(guarded([&] { return I(sgn(ns.compare(p1, c1, ct.p))); }), guarded([&] { return I(sgn(ss.compare(p1, c1, ct.p))); }), "C20:string_view:compare-pos-cstr",
                "compare(pos1,count1,const char*) " + w);
           for (size_t c2 = 0; c2 <= t.size(); ++c2)
-            same(guarded([&] { return I(sgn(ns.compare(p1, c1, ct.p, c2))); }), guarded([&] { return I(sgn(ss.compare(p1, c1, ct.p, c2))); }), "C20:string_view:compare-pos-cstr-count",
+            SAME(guarded([&] { return I(sgn(ns.compare(p1, c1, ct.p, c2))); }), guarded([&] { return I(sgn(ss.compare(p1, c1, ct.p, c2))); }), "C20:string_view:compare-pos-cstr-count",
                  vf::sfmt("compare(pos1,count1,const char*,%zu) ", c2) + w);
         }
       break;
@@ -142,16 +150,16 @@ void run_string_view(vf::Ctx &c) {
         for (size_t c1 : positions(s.size(), false))
           for (size_t p2 : positions(t.size(), th))
             for (size_t c2 : positions(t.size(), false))
-              same(guarded([&] { return I(sgn(ns.compare(p1, c1, nt, p2, c2))); }), guarded([&] { return I(sgn(ss.compare(p1, c1, st, p2, c2))); }), "C20:string_view:compare-pos2",
+              SAME(guarded([&] { return I(sgn(ns.compare(p1, c1, nt, p2, c2))); }), guarded([&] { return I(sgn(ss.compare(p1, c1, st, p2, c2))); }), "C20:string_view:compare-pos2",
                    vf::sfmt("compare(%s,%s,v,%s,%s) of ", pos_str(p1).c_str(), pos_str(c1).c_str(), pos_str(p2).c_str(), pos_str(c2).c_str()) + q(s) + " with " + q(t));
       break;
     }
     case 4: {  // find(ch, pos)
       c.stage("string_view:find");
       for (char ch : std::string("ab\0\xff" "c", 5)) {
-        same(I((long long)ns.find(ch)), I((long long)ss.find(ch)), "C20:string_view:find", vf::sfmt("find('\\x%02x') in ", (unsigned char)ch) + q(s));
+        SAME(I((long long)ns.find(ch)), I((long long)ss.find(ch)), "C20:string_view:find", vf::sfmt("find('\\x%02x') in ", (unsigned char)ch) + q(s));
         for (size_t p : positions(s.size(), th))
-          same(I((long long)ns.find(ch, p)), I((long long)ss.find(ch, p)), "C20:string_view:find", vf::sfmt("find('\\x%02x',%s) in ", (unsigned char)ch, pos_str(p).c_str()) + q(s));
+          SAME(I((long long)ns.find(ch, p)), I((long long)ss.find(ch, p)), "C20:string_view:find", vf::sfmt("find('\\x%02x',%s) in ", (unsigned char)ch, pos_str(p).c_str()) + q(s));
       }
       break;
     }
@@ -161,9 +169,9 @@ void run_string_view(vf::Ctx &c) {
       auto show_s = [&](std::string_view v) { return vf::sfmt("+%td/%zu", v.data() - ss.data(), v.size()); };
       for (size_t p : positions(s.size(), th)) {
         const char *sig = p > s.size() ? "C20:string_view:substr-out-of-range" : "C20:string_view:substr";
-        same(guarded([&] { return show_n(ns.substr(p)); }), guarded([&] { return show_s(ss.substr(p)); }), sig, vf::sfmt("substr(%s) of ", pos_str(p).c_str()) + q(s));
+        SAME(guarded([&] { return show_n(ns.substr(p)); }), guarded([&] { return show_s(ss.substr(p)); }), sig, vf::sfmt("substr(%s) of ", pos_str(p).c_str()) + q(s));
         for (size_t k : positions(s.size(), th))
-          same(guarded([&] { return show_n(ns.substr(p, k)); }), guarded([&] { return show_s(ss.substr(p, k)); }), sig, vf::sfmt("substr(%s,%s) of ", pos_str(p).c_str(), pos_str(k).c_str()) + q(s));
+          SAME(guarded([&] { return show_n(ns.substr(p, k)); }), guarded([&] { return show_s(ss.substr(p, k)); }), sig, vf::sfmt("substr(%s,%s) of ", pos_str(p).c_str(), pos_str(k).c_str()) + q(s));
       }
       break;
     }
@@ -179,13 +187,15 @@ void run_string_view(vf::Ctx &c) {
       std::ostringstream on, os;
       on << ns << '|' << nt;
       os << ss << '|' << st;
-      same(q(on.str()), q(os.str()), "C20:string_view:stream", "operator<< of " + q(s) + " and " + q(t));
+      SAME(q(on.str()), q(os.str()), "C20:string_view:stream", "operator<< of " + q(s) + " and " + q(t));
       break;
     }
   }
   c.step(n);
+  out += vf::sfmt("#%016llx%016llx", (unsigned long long)outh.a, (unsigned long long)outh.b);
   c.state(vf::sfmt("sv|%d|", group) + out);
   c.outcome(vf::sfmt("sv|%d|", group) + out);
+#undef SAME
   if (s.size() >= 2) c.sample(vf::sfmt("string_view group %d on ", group) + q(s) + (binary ? " and " + q(t) : "") + vf::sfmt(": %llu results equal to std::string_view", (unsigned long long)n));
 }
 
@@ -612,6 +622,15 @@ template <class F> struct VWorld {
     }
     return o;
   }
+  // alternative and value of both variants (through visit; a valueless variant throws) and the instance count
+  std::string canon() {
+    std::string o;
+    for (int t = 0; t < 2; ++t) {
+      try { o += F::visit(Show{}, *v[t]); } catch (const typename F::bad &) { o += "valueless"; }
+      o += "|";
+    }
+    return o + vf::sfmt("%d", g_live[F::side]);
+  }
   std::string observe() {
     V &a = *v[0], &b = *v[1];
     std::string o = "a{" + describe(a) + "} b{" + describe(b) + "}";
@@ -738,7 +757,7 @@ void run_variant(vf::Ctx &c) {
     const std::vector<VOp> &ops = variant_ops();
     for (int d = 0; d < depth; ++d) {
       {
-        vf::H128 h; h.add(0x7a); h.add((uint64_t)(depth - d)); h.add_str(wn.observe());
+        vf::H128 h; h.add(0x7a); h.add((uint64_t)(depth - d)); h.add_str(wn.canon());
         c.prune_point(h);  // complete: a variant's future depends on the alternative held and its value only (both are in the string)
       }
       const VOp &o = ops[c.pick("variant-op", (int)ops.size())];
